@@ -193,7 +193,8 @@ def repo_head():
     import subprocess
     try:
         return subprocess.run(
-            ['git', '-C', '/repo', 'rev-parse', '--short', 'HEAD'],
+            ['git', '-C', os.environ.get('ZODB_VERIF_REPO', '/repo'),
+             'rev-parse', '--short', 'HEAD'],
             capture_output=True, text=True).stdout.strip()
     except Exception:
         return '?'
